@@ -56,8 +56,11 @@ func c20LinOutput(r sim.Result) string {
 func c20LinModel(kind sim.Kind) porcupine.Model {
 	return porcupine.Model{
 		Init: func() interface{} {
-			if kind == sim.Counter {
+			switch kind {
+			case sim.Counter:
 				return int32(0)
+			case sim.List:
+				return "" // the elements, each followed by '|'
 			}
 			return c20LinMapState{}
 		},
@@ -85,6 +88,48 @@ func c20LinModel(kind sim.Kind) porcupine.Model {
 						want = sim.Canon(float64(v))
 					}
 					cur = v
+				case sim.List:
+					var l []string
+					if cs := cur.(string); cs != "" {
+						l = strings.Split(strings.TrimSuffix(cs, "|"), "|")
+					}
+					switch c.M {
+					case "Size":
+						want = sim.Canon(float64(len(l)))
+					case "Get":
+						if c.Pos < 0 || c.Pos >= len(l) {
+							want = "ERR"
+						} else {
+							want = sim.Canon(l[c.Pos])
+						}
+					case "Insert":
+						if c.Pos < 0 || c.Pos > len(l) {
+							want = "ERR"
+						} else {
+							want = sim.Canon([]interface{}{c.Vals[0].S})
+							l = append(append(append([]string{}, l[:c.Pos]...), c.Vals[0].S), l[c.Pos:]...)
+						}
+					case "Update":
+						if c.Pos < 0 || c.Pos >= len(l) {
+							want = "ERR"
+						} else {
+							want = sim.Canon([]interface{}{l[c.Pos]})
+							l = append([]string{}, l...)
+							l[c.Pos] = c.Vals[0].S
+						}
+					case "Delete":
+						if c.Pos < 0 || c.Pos >= len(l) {
+							want = "ERR"
+						} else {
+							want = sim.Canon(l[c.Pos])
+							l = append(append([]string{}, l[:c.Pos]...), l[c.Pos+1:]...)
+						}
+					}
+					ns := ""
+					for _, e := range l {
+						ns += e + "|"
+					}
+					cur = ns
 				default:
 					m := cur.(c20LinMapState)
 					val, has := &m.A, &m.HasA
@@ -149,6 +194,22 @@ func c20LinGenCall(rt *rapid.T, kind sim.Kind, label string, tagN *int, g int) s
 			return sim.Call{M: "Increase"}
 		}
 		return sim.Call{M: "IncreaseBy", Vals: []sim.Val{sim.I(int64(rapid.IntRange(-3, 5).Draw(rt, label+".d")))}}
+	}
+	if kind == sim.List {
+		pos := rapid.IntRange(0, 2).Draw(rt, label+".pos")
+		switch rapid.IntRange(0, 6).Draw(rt, label+".m") {
+		case 0:
+			return sim.Call{M: "Size"}
+		case 1:
+			return sim.Call{M: "Get", Pos: pos}
+		case 2:
+			return sim.Call{M: "Delete", Pos: pos}
+		case 3:
+			*tagN++
+			return sim.Call{M: "Update", Pos: pos, Vals: []sim.Val{sim.S(fmt.Sprintf("u%d.%d", g, *tagN))}}
+		}
+		*tagN++
+		return sim.Call{M: "Insert", Pos: pos, Vals: []sim.Val{sim.S(fmt.Sprintf("g%d.%d", g, *tagN))}}
 	}
 	k := rapid.SampledFrom([]string{"a", "b"}).Draw(rt, label+".k")
 	switch rapid.IntRange(0, 5).Draw(rt, label+".m") {
@@ -232,9 +293,12 @@ func testC20Linearizable(t *testing.T, kind sim.Kind) {
 							}
 							return nil
 						}
-						if kind == sim.Counter {
+						switch kind {
+						case sim.Counter:
 							_ = dt.(orda.Counter).Transaction("t", func(v orda.CounterInTx) error { return body(v) })
-						} else {
+						case sim.List:
+							_ = dt.(orda.List).Transaction("t", func(v orda.ListInTx) error { return body(v) })
+						default:
 							_ = dt.(orda.Map).Transaction("t", func(v orda.MapInTx) error { return body(v) })
 						}
 					}
@@ -292,3 +356,4 @@ func testC20Linearizable(t *testing.T, kind sim.Kind) {
 
 func TestC20LinearizableCounter(t *testing.T) { testC20Linearizable(t, sim.Counter) }
 func TestC20LinearizableMap(t *testing.T)     { testC20Linearizable(t, sim.Map) }
+func TestC20LinearizableList(t *testing.T)    { testC20Linearizable(t, sim.List) }
